@@ -83,6 +83,10 @@ type tcSystem struct {
 // tcFixedKinds, when set, pins the kind of thread i (used for a cheap three-thread query).
 var tcFixedKinds []int
 
+// tcPrefilled: the slot channel is full when the tasks start (it counts free slots: acquire =
+// receive, release = send) instead of empty (it counts slots in use: acquire = send).
+var tcPrefilled bool
+
 func buildTC(N, M int, prog map[[2]int][]int, kinds []int, rendezvous bool) *tcSystem {
 	c := sym.NewCtx()
 	t := &tcSystem{c: c, N: N, M: M, prog: prog, kinds: kinds}
@@ -152,7 +156,11 @@ func buildTC(N, M int, prog map[[2]int][]int, kinds []int, rendezvous bool) *tcS
 	t.pc = append(t.pc, pc0)
 	t.run = append(t.run, run0)
 	t.began = append(t.began, beg0)
-	t.tok = append(t.tok, bv(4, 0))
+	if tcPrefilled {
+		t.tok = append(t.tok, t.max)
+	} else {
+		t.tok = append(t.tok, bv(4, 0))
+	}
 	t.holder = append(t.holder, bv(3, 0))
 	for k := 0; k < t.K; k++ {
 		s := c.Var(fmt.Sprintf("sched%d", k), 3)
@@ -330,6 +338,22 @@ func extractThread(prog *gose.Program, fn *ssa.Function, kind, cores, max int, s
 	}
 	// with every mutex traced: keep the locks whose critical section contains an operation
 	// on the traced channel, drop the others (per-object locks taken around bookkeeping)
+	{
+		var tr []string
+		for _, ev := range res.SyncTrace {
+			if strings.HasPrefix(ev, "I:") {
+				n0 := 0
+				fmt.Sscanf(ev, "I:%d", &n0)
+				if n0 != 0 && n0 != max {
+					return nil, nil, res, fmt.Errorf("thread extraction: the slot channel holds %d of %d tokens when the task starts (neither empty nor full)", n0, max)
+				}
+				tcPrefilled = n0 == max && max > 0
+				continue
+			}
+			tr = append(tr, ev)
+		}
+		res.SyncTrace = tr
+	}
 	res.SyncTrace = filterLocks(res.SyncTrace)
 	var ops []int
 	for _, ev := range res.SyncTrace {
@@ -689,6 +713,9 @@ func (cr *checkRun) runTCInduction(which string, N, M int, prog map[[2]int][]int
 	inv := func(s indState) *sym.Term {
 		r := c.Ule(s.tok, max)
 		sum := bv(6, 0)
+		if tcPrefilled {
+			sum = c.Zext(max, 6)
+		}
 		for i := 0; i < N; i++ {
 			r = c.And(r, validPC(i, s.pc[i]))
 			d := look(i, s.pc[i], func(x row) int { return x.dep }, 6)
@@ -736,6 +763,9 @@ func (cr *checkRun) runTCInduction(which string, N, M int, prog map[[2]int][]int
 	var qs []q
 	// init
 	init := indState{tok: bv(4, 0), holder: bv(3, 0)}
+	if tcPrefilled {
+		init.tok = max
+	}
 	for i := 0; i < N; i++ {
 		init.pc = append(init.pc, bv(PW, 0))
 	}
